@@ -28,6 +28,20 @@ partial def loopCDisp (h : IO.FS.Stream) (out : IO.FS.Stream) (st : Ocpp.CD.St) 
   out.putStrLn o
   loopCDisp h out st'
 
+partial def loopSDisp (h : IO.FS.Stream) (out : IO.FS.Stream) (st : Ocpp.SD.St) : IO Unit := do
+  let line ← h.getLine
+  if line.isEmpty then return ()
+  let (st', o) := Ocpp.Drv.stepSDisp st (splitWs line)
+  out.putStrLn o
+  loopSDisp h out st'
+
+partial def loopGen {σ : Type} (h : IO.FS.Stream) (out : IO.FS.Stream) (f : σ → List String → σ × String) (st : σ) : IO Unit := do
+  let line ← h.getLine
+  if line.isEmpty then return ()
+  let (st', o) := f st (splitWs line)
+  out.putStrLn o
+  loopGen h out f st'
+
 partial def loopPure (h : IO.FS.Stream) (out : IO.FS.Stream) (f : List String → String) : IO Unit := do
   let line ← h.getLine
   if line.isEmpty then return ()
@@ -40,5 +54,10 @@ def main (args : List String) : IO UInt32 := do
   match args with
   | ["containers"] => loopContainers stdin stdout {}; pure 0
   | ["cdisp"] => loopCDisp stdin stdout (Ocpp.CD.init 0); pure 0
+  | ["sdisp"] => loopSDisp stdin stdout (Ocpp.SD.init 0); pure 0
+  | ["l3s"] => loopGen stdin stdout Ocpp.Drv.stepL3S {}; pure 0
+  | ["l3c"] => loopGen stdin stdout Ocpp.Drv.stepL3C {}; pure 0
+  | ["cdmon"] => loopGen stdin stdout Ocpp.Drv.stepCMon (some {}); pure 0
+  | ["sdmon"] => loopGen stdin stdout Ocpp.Drv.stepSMon (some {}); pure 0
   | ["datetime"] => loopPure stdin stdout Ocpp.Drv.stepDateTime; pure 0
   | _ => IO.eprintln "usage: driver <suite>"; pure 2
